@@ -455,11 +455,17 @@ pub fn property() -> Property {
     tape!("transform-regimes-f32", r, 128, 16_000, 800_000, reg::transform_regimes::<f32>);
     Property {
         id: "C07",
-        rule: "builder chains of 0-8 generated steps (arguments: small rationals / floats, registered angles, Pythagorean axes) starting from the identity or a random matrix; Transform with rational unit quaternion, mostly non-uniform scale; non-trivial = chain with >= 2 different kinds of step / non-uniform scale with a non-axis-aligned rotation / all parameters non-zero and pairwise different scales; distinct = distinct consumed tape prefix",
+        rule: "builder chains of 0-8 generated steps (arguments: small rationals / floats, registered angles, Pythagorean axes) starting from the identity or a random matrix; Transform with rational unit quaternion, mostly non-uniform scale; non-trivial = chain with >= 2 different kinds of step / non-uniform scale with a non-axis-aligned rotation / all parameters non-zero and pairwise different scales; regime checks (src/reg.rs): helpers-forms non-trivial = projective matrix (bottom row != 0,0,0,1) and >= 2 non-zero coordinates; arg-forms = a, b, c pairwise different and non-zero, ignored w != c; step-regimes = the step is not a no-op and the start matrix is not the identity; transform-regimes = non-zero rotation angle and a point with >= 2 non-zero coordinates; ctor-entries = pairwise different arguments; distinct = distinct consumed tape prefix",
         assumptions: &[
             "rustc and the proptest runner/shrinker are trusted",
             "oracle: each step's action on a point written from its definition (translation adds, scaling multiplies per axis, shear adds k times the other coordinate, rotation by the axis-angle formula); its matrix is assembled from the images of the basis vectors",
-            "float tolerance 1024*eps*(product of step magnitudes)",
+            "float tolerance 1024*eps*(product of step magnitudes) in the chain / constructors / transform checks",
+            "regime checks: tolerance k*eps*(sum of the magnitudes of the terms of that very component), never max(1, .): k = 16 for one row . vector or one builder step (<= 4 roundings in vek, the same in the oracle, constructor entries exact or one rounding of sin/cos), 32 for a rotation about a general axis (its entries are sums of terms <= 1 known to a few eps absolutely, so the 3x3 block is bounded by max(|entry|, 1)), 16 for the Transform map relative to |position_i| + sum_j |scale_j p_j| (any implementation of orientation*(scale . p) has an error relative to |scale . p|, not to the rotational displacement; so a dropped rotation of angle a is visible down to a ~ 100 eps: angles are drawn down to 2^-40 in f64 and 2^-14 in f32)",
+            "regimes are kept inside the range where no correct implementation overflows or underflows: unit of length 2^k with |k| <= 24 (f32, Rat) / 200 (f64) (half of that for Transform, whose scale factors reach 2^(+-12) / 2^(+-100)); rotation-axis lengths 2^(+-12) / 2^(+-100) times a Pythagorean vector so that the squared length stays normal; angles up to 2^9 (f32) / 2^17 (f64) radians, where the oracle takes sin / cos of the same argument in the same type",
+            "Transform orientations are unit quaternions to rounding (cos(a/2), sin(a/2)*axis computed in f64 and rounded to the type; also the negated quaternion and +-identity); non-normalised orientations are outside the documented domain of Mat4::from(Quaternion) and are not generated",
+            "argument forms: the vector an argument converts to is written down from the documented conversions (Vec2 -> z = 0, Vec4 -> w dropped, scalar -> broadcast, tuples / arrays / Extent / Rgb component-wise); builders with a converted argument must equal the Vec3 / Vec2 call bit for bit (same code after the conversion)",
+            "ctor-entries: finite values only (subnormals, MIN_POSITIVE, MAX, EPSILON, 1 +- eps, -0 compared with ==, +-2^j over the whole normal range); infinities and NaN are not asserted (the property is silent there)",
+            "mul_point / mul_direction(_2d) in their Vec4 / Vec3-returning forms must return every row of M*(p,1) / M*(d,0) (documented as shortcuts for M * Vec4::from_point(p) etc.); the shortcut relation itself is asserted to the same tolerance, not bit for bit",
         ],
         checks,
         max_discard_frac: 0.1,
